@@ -506,3 +506,143 @@ def oracle_audit(src, ops, tail):
                 if n is not None and necessary(n) and n["valid"] and n["val"] == "-":
                     return f"after stabilise (op {op.idx}): necessary valid node {r} has no value"
     return None
+
+
+# ---------------------------------------------------------------- C08: the variable write machine
+def oracle_vars(src, ops, tail):
+    """VarSpec: writes outside stabilise are immediate (get/replace return the logical value); writes from
+    node functions / bind closures are deferred, compose in program order, are invisible to every reader
+    of the running stabilise and become the value at its end; writes from handlers are immediate.
+    Effects are only tracked for top-level maps, top-level bind closures and handlers."""
+    return _oracle_vars_sim(src, ops)
+
+
+def _apply_effect(e, logical, pending, deferred, arg):
+    """returns (observable kind, expected value) or None"""
+    k = e[0]
+    if k in ("read", "stabilise", "panic"):
+        return ("skip", None)
+    x = int(e[1])
+
+    def cur():
+        return pending[x] if (deferred and x in pending) else logical[x]
+
+    def write(v):
+        if deferred:
+            pending[x] = v
+        else:
+            logical[x] = v
+    if k == "set":
+        write(int(e[2]))
+    elif k == "setarg":
+        write(arg)
+    elif k in ("update", "modify"):
+        from checks.ref import as_int
+        write(as_int(cur()) + int(e[2]))
+    elif k == "replace":
+        old = cur()
+        write(int(e[2]))
+        return ("effreplace", x, old)
+    elif k == "replacewith":
+        from checks.ref import as_int
+        old = cur()
+        write(as_int(old) + int(e[2]))
+        return ("effreplace", x, old)
+    elif k == "get":
+        return ("effget", x, logical[x])
+    return None
+
+
+def _oracle_vars_sim(src, ops):
+    ref = Ref()
+    rank_of_handle, effs_of_node, effs_of_bind, kids, var_of_rank, subs = {}, {}, {}, {}, {}, {}
+    poisoned = False
+    for op in ops:
+        line = src[op.idx]
+        k = T.parse_op(line)
+        name = k[0]
+        if op.result.startswith("panic"):
+            poisoned = True
+        if not poisoned and name in ("get", "replace", "replacewith"):
+            want = "val " + show(ref.store[k[1]])
+            if op.result != want:
+                return f"op {op.idx} `{line}`: returned {op.result}, the variable's logical value is {want[4:]}"
+        ref.step(line)
+        if op.result.startswith("node "):
+            r = int(op.result.split()[1])
+            rank_of_handle[len(ref.handles) - 1] = r
+            if name in ("var", "pair"):
+                var_of_rank[r] = len(ref.store) - 1
+            elif name == "map":
+                effs_of_node[r] = k[2]
+                kids[r] = k[3]
+            elif name == "bind":
+                effs_of_bind[r - 1] = k[2]["effs"]
+        if name == "subscribe" and op.result.startswith("tok "):
+            subs[(k[1], int(op.result.split()[1]))] = k[3]
+        if poisoned or name != "stabilise":
+            continue
+        logical = list(ref.store)
+        pre = list(ref.store)
+        pending = {}
+        buffered = []       # observable effect events seen and not yet attributed (they precede their `inv`)
+        expect = []         # observable events expected next (after a bindrun / upd)
+        applied_pending = False
+        for e in op.events:
+            kind = e.split(" ", 1)[0]
+            if kind in ("effget", "effreplace"):
+                t = e.split()
+                got = (kind, int(t[1]), t[2])
+                if expect:
+                    w = expect.pop(0)
+                    if (w[0], w[1], show(w[2])) != got:
+                        return f"op {op.idx}: `{e}` but the write machine says {w[0]} {w[1]} {show(w[2])}"
+                else:
+                    buffered.append((got, e))
+            elif kind == "inv":
+                n = int(e.split()[1])
+                # readers of a variable see the pre-stabilise value
+                if n in kids:
+                    args = e[e.index("[") + 1:e.index("]")].split()
+                    for a, h in zip(args, kids[n]):
+                        r = rank_of_handle.get(h)
+                        if r in var_of_rank and a != show(pre[var_of_rank[r]]):
+                            return (f"op {op.idx}: node {n} read variable {var_of_rank[r]} as {a}; its value when stabilise "
+                                    f"was called is {show(pre[var_of_rank[r]])}")
+                effs = effs_of_node.get(n)
+                if effs is None:
+                    buffered = []
+                    continue
+                arg0 = None
+                for ef in effs:
+                    w = _apply_effect(ef, logical, pending, True, arg0)
+                    if w and w[0] != "skip":
+                        if not buffered:
+                            return f"op {op.idx}: expected an event {w[0]} {w[1]} before `{e}`"
+                        got, raw = buffered.pop(0)
+                        if (w[0], w[1], show(w[2])) != got:
+                            return f"op {op.idx}: `{raw}` but the write machine says {w[0]} {w[1]} {show(w[2])}"
+                buffered = []
+            elif kind == "bindrun":
+                L = int(e.split()[1])
+                for ef in effs_of_bind.get(L, []):
+                    w = _apply_effect(ef, logical, pending, True, None)
+                    if w and w[0] != "skip":
+                        expect.append(w)
+            elif kind == "upd":
+                if not applied_pending:
+                    for x, v in pending.items():
+                        logical[x] = v
+                    pending = {}
+                    applied_pending = True
+                f = dict(x.split("=") for x in e.split()[1:4])
+                effs = subs.get((int(f["obs"]), int(f["tok"])), [])
+                for ef in effs:
+                    w = _apply_effect(ef, logical, pending, False, None)
+                    if w and w[0] != "skip":
+                        expect.append(w)
+        if not applied_pending:
+            for x, v in pending.items():
+                logical[x] = v
+        ref.store = logical
+    return None
